@@ -144,6 +144,10 @@ def run_case(case, ctx):
                 # 3.12+: HAVE_ARGUMENT no longer separates operand-taking opcodes in CPython itself
                 if not same_gap:
                     bad("categorised:%s:%d" % (cat, o), "opcode %d in %s but defined=%s takes_operand=%s" % (o, cat, is_def, takes))
+    # M-facts (CPython's Lib/dis.py / opcode.py history, for tables without an interpreter): FOR_LOOP (1.0-2.2) carries the number of
+    # bytes to skip when the sequence is exhausted - a relative jump (jrel_op in every opcode.py that has it)
+    if "FOR_LOOP" in opmap and opmap["FOR_LOOP"] not in set(getattr(opc, "hasjrel", ())):
+        bad("FOR_LOOP-not-jrel", "FOR_LOOP (%d) is not in hasjrel" % opmap["FOR_LOOP"])
     both = set(getattr(opc, "hasjrel", ())) & set(getattr(opc, "hasjabs", ()))
     if both:
         bad("jrel-and-jabs", "opcodes %s are both relative and absolute jumps" % sorted(both))
